@@ -234,7 +234,14 @@ def run_c16(ctx):
             ctx.samples = [[{k: v for k, v in o.items() if k not in ("resp", "db")} for o in json.loads(b)] for b in behs[:2]]
         bpath = ctx.path("storebeh-%s.ndjson" % name)
         # the harness needs only the commands; predicted responses stay inside TLC
-        open(bpath, "w").write("\n".join(json.dumps([{k: v for k, v in o.items() if k not in ("resp", "db")} for o in json.loads(b)]) for b in behs) + "\n")
+        lines = [json.dumps([{k: v for k, v in o.items() if k not in ("resp", "db")} for o in json.loads(b)]) for b in behs]
+        # backlogs (behaviours of Store.tla written down directly: the generator does not build long queues): more commands than the
+        # store's channel holds are issued without letting the store run, then a read -- it must see the last write
+        for nb in (160, 230):
+            lines.append(json.dumps([{"op": "write", "h": i % 3, "key": 1 + (i % 2), "val": 1 + (i % 3)} for i in range(nb)]
+                                    + [{"op": "read", "h": 0, "key": 1}, {"op": "read", "h": 1, "key": 2}, {"op": "notify", "h": 2, "key": 3},
+                                       {"op": "write", "h": 0, "key": 3, "val": 2}, {"op": "drain"}]))
+        open(bpath, "w").write("\n".join(lines) + "\n")
         tpath = ctx.path("storetrace-%s.ndjson" % name)
         st = run_harness(ctx, hs, ["store", "in=" + bpath, "out=" + tpath, "tag=%d" % os.getpid()])
         ctx.log("store %s: %s" % (name, st))
